@@ -144,7 +144,7 @@ func ValidDoc(t *rapid.T, o DocOpt) []byte {
 }
 
 // Mutation names, recorded in cases for the class histogram.
-var MutationKinds = []string{"delete-structural", "dup-structural", "replace-structural", "truncate", "append-junk", "near-literal", "bad-number", "insert-byte", "swap-bytes", "delete-byte", "control-in-string", "badutf8-in-string"}
+var MutationKinds = []string{"delete-structural", "dup-structural", "replace-structural", "truncate", "append-junk", "near-literal", "bad-number", "insert-byte", "swap-bytes", "delete-byte", "control-in-string", "badutf8-in-string", "stray-in-space"}
 
 var junkTails = []string{"x", "]", "}", ",", "1", "null", `""`, "{}", " x", "\n]", ":", "\x00", "/", "//", "/**/", "\xff", "0", "e", "."}
 
@@ -240,6 +240,38 @@ func Mutate(t *rapid.T, doc []byte) ([]byte, string) {
 		p := at(len(out) + 1)
 		c := []byte(`{}[],:"\x-0.e` + "\x00\xff\n ")[rapid.IntRange(0, 16).Draw(t, "ins")]
 		out = append(out[:p], append([]byte{c}, out[p:]...)...)
+	case "stray-in-space":
+		// a run of white space between two tokens with one arbitrary byte inside it (inlined space skippers
+		// treat the first bytes of a run differently from the rest)
+		p := 0
+		if len(sp) > 0 {
+			i := at(len(sp))
+			p = sp[i]
+			closing := false
+			if out[p] == '"' {
+				q := 0
+				for _, x := range sp[:i+1] {
+					if out[x] == '"' {
+						q++
+					}
+				}
+				closing = q%2 == 0
+			}
+			// before the token or after it; never inside a string
+			if closing || out[p] != '"' && rapid.Bool().Draw(t, "after") {
+				p++
+			}
+		}
+		ws := " \t\n\r"
+		var run []byte
+		for i, n := 0, rapid.IntRange(0, 4).Draw(t, "wsbefore"); i < n; i++ {
+			run = append(run, ws[rapid.IntRange(0, 3).Draw(t, "ws")])
+		}
+		run = append(run, rapid.Byte().Draw(t, "stray"))
+		for i, n := 0, rapid.IntRange(0, 2).Draw(t, "wsafter"); i < n; i++ {
+			run = append(run, ws[rapid.IntRange(0, 3).Draw(t, "ws2")])
+		}
+		out = append(out[:p], append(run, out[p:]...)...)
 	case "swap-bytes":
 		if len(out) < 2 {
 			return out, kind
